@@ -22,11 +22,12 @@ GridK(id, a) ==
       [] id = 2 -> <<Norm(2 * hi - 1, 2), Norm(2 * lo + 1, 2), Norm(2 * hi - 1, 2), Norm(4 * lo + 5, 4)>>   \* unsorted, repeated
       [] id = 3 -> <<R(hi + 2), Norm(2 * lo + 3, 2), R(lo - 1), R(lo + 1), Norm(2 * hi - 3, 2)>>             \* outside points before interior ones
       [] id = 4 -> <<Norm(4 * lo + 3, 4)>>                                                                   \* single point
+      [] id = 6 -> <<R(hi + 1), R(lo - 2)>>                                                                   \* every point outside the knot range: nothing contributes along this axis
       [] OTHER -> <<R(lo), Norm(2 * lo + 1, 2), R(hi)>>                                                      \* the end knots themselves (not strictly inside)
 SumSeqI(q) == LET RECURSIVE F(_) F(z) == IF z = <<>> THEN 0 ELSE Head(z) + F(Tail(z)) IN F(q)
-Cases == {<<a, g>> : a \in [1 .. 1 -> 1 .. 4], g \in [1 .. 1 -> 1 .. 5]} \cup
-         {c \in {<<a, g>> : a \in [1 .. 2 -> 1 .. 4], g \in [1 .. 2 -> 1 .. 5]} : (SumSeqI(c[1]) + 2 * SumSeqI(c[2])) % MaxCase = 0} \cup
-         {c \in {<<a, g>> : a \in [1 .. 3 -> 1 .. 3], g \in [1 .. 3 -> 1 .. 5]} : (SumSeqI(c[1]) * 3 + SumSeqI(c[2])) % (7 * MaxCase) = 1} \cup
+Cases == {<<a, g>> : a \in [1 .. 1 -> 1 .. 4], g \in [1 .. 1 -> 1 .. 6]} \cup
+         {c \in {<<a, g>> : a \in [1 .. 2 -> 1 .. 4], g \in [1 .. 2 -> 1 .. 6]} : (SumSeqI(c[1]) + 2 * SumSeqI(c[2])) % MaxCase = 0} \cup
+         {c \in {<<a, g>> : a \in [1 .. 3 -> 1 .. 3], g \in [1 .. 3 -> 1 .. 6]} : (SumSeqI(c[1]) * 3 + SumSeqI(c[2])) % (7 * MaxCase) = 1} \cup
          \* four dimensions: the two smallest axes, short abscissa lists (sorted / unsorted+repeated / single point)
          {c \in {<<a, g>> : a \in [1 .. 4 -> 1 .. 2], g \in [1 .. 4 -> {1, 2, 4}]} : (SumSeqI(c[1]) * 5 + SumSeqI(c[2]) * 3 + c[2][1] + 2 * c[1][4]) % (23 * MaxCase) = 2}
 VARIABLE cs
